@@ -502,3 +502,26 @@ func OK_MergedCall() {
 	}
 	vAssert(n <= 6, "count")
 }
+
+// product lemmas: range questions over symbolic*symbolic products
+func OK_ProductRange() {
+	vOverflow("selftest.feeLike")
+	amt, rate := vU64("amt"), vI64("rate")
+	vAssume(amt <= 2_100_000_000_000 && rate >= -10_000_000 && rate <= 10_000_000)
+	f := feeLike(int64(amt), rate, vI32("base"))
+	vAssert(f <= 21_100_000_000_000+2147483647 && f >= -21_100_000_000_000-2147483648, "fee range")
+}
+
+func BAD_ProductRange() {
+	vOverflow("selftest.feeLike")
+	amt, rate := vU64("amt"), vI64("rate")
+	vAssume(amt <= 1<<62 && rate >= -10_000_000 && rate <= 10_000_000)
+	_ = feeLike(int64(amt), rate, vI32("base"))
+}
+
+func feeLike(a, rate int64, base int32) int64 {
+	fee := int64(base)
+	fee += rate * (a / 1000000)
+	fee += rate * (a % 1000000) / 1000000
+	return fee
+}
